@@ -1,18 +1,19 @@
 CONSTANTS
-  MaxOps = 8
-  MaxDepth = 2
-  Names = {"a", "b", "ab"}
+  MaxOps = 4
+  MaxDepth = 1
+  Names = {"a"}
   Classes = {"MA", "MB"}
   InitStreams <- InitStreamsDef
-  ApplyCfgs <- ApplyCfgsFull
-  Lifts = {"none"}
+  ApplyCfgs <- ApplyCfgsSmall
+  Lifts = {"none", "jit", "remat"}
   Separator = TRUE
-  Hist = TRUE
+  Hist = FALSE
 SPECIFICATION Spec
 INVARIANT TypeOK
 INVARIANT FrozenOutside
 INVARIANT ApplyOfInitOK
 INVARIANT NoSilentReinit
+INVARIANT MirrorsTree
 INVARIANT NoReuse
 INVARIANT ReturnedExactly
-INVARIANT Export
+PROPERTY ErrorsInert
